@@ -631,8 +631,8 @@ class Array(metaclass=MetaArray):
     def _update(self, value):
         if is_integer(value):
             ll = value
-        else:
-            ll = len(value)
+        else:  # number of items (len() would be the first extent only)
+            ll = np.prod(get_shape_from_array(value, len(self._shape)))
         if len(self) == ll:
             info = self.__class__._inspect_args(value)
             if tuple(info.shape) != tuple(self._shape):
